@@ -60,6 +60,8 @@ def run(ctx, rep):
     from ..report import Renamed
     c15.r156(ctx, Renamed(rep, to="R16.7"))
     c15.r1516(ctx, Renamed(rep, to="R16.7"))
+    rep.rule("R16.8", "the step length to the bounds is the minimum over both bounds, so the value reported with a geometry step belongs to the clipped step (see C15 R15.3)")
+    c15.r153(ctx, Renamed(rep, to="R16.8"))
     rep.rule("R16.6", "the working-set masks and subproblem data reach the solvers and their QR helpers through the right parameters (no swapped arguments)")
     from . import common
     if common.check_swapped_args(ctx, rep, "R16.6", lambda g: g.module.name.startswith("cobyqa.subsolvers")) < 8:
